@@ -44,4 +44,13 @@ PROPS = {
         ],
         assumptions=[],
     ),
+    "C11": dict(
+        gen=["hf"],
+        trusted=[
+            "coordinates are integers in the model and in the correspondence (exact in binary64); the scale contentHeight/pageHeight is a rational in the model and the generator uses page height 512 for content beyond the page so the float scale is exact",
+            "modelled: HeaderFooterDetector.Detect (extractCandidates, findRepeatingPatterns, hasConsistentPosition, normalizeForComparison, isPageNumberPattern with the regenerated pattern list, containsPageNumberPattern) for pages that are not character-level, and HeaderFooterResult.FilterFragments/isInHeaderFooter/textsMatch/containsPage completely (character-level flag included). Not modelled: preprocessPages/assembleFragmentsIntoLines for character-level pages (property predicates on the implementation only); confidence values (they only order the regions, proved irrelevant); strings.EqualFold beyond ASCII",
+            "regexp \\d+ is modelled as ASCII digit runs",
+        ],
+        assumptions=["the per-page guess of a flipped Y axis (content exceeding the page) is modelled as written; the running-header predicate of the harness is evaluated on ordinary PDF coordinates only"],
+    ),
 }
